@@ -464,7 +464,7 @@ def c09_6(ctx):
         for hrp in sorted(set(prefixes.values())):
             for ver, n in (("q", 38), ("q", 58), ("p", 58)):
                 sample = hrp + "1" + ver + "x" * n
-                arm = _arm_taken(ctx.repo, mod, fn, p, sample)
+                arm = _arm_taken(ctx.repo, mod, fn, p, sample, spec)
                 ok = arm is not None and ("decode_bech32" in arm)
                 k = "hrp:%s:%s%d" % (hrp, ver, n)
                 if ok:
@@ -477,8 +477,34 @@ def c09_6(ctx):
     return out
 
 
-def _arm_taken(repo, mod, fn, param, sample):
+class _Reached(Exception):
+    pass
+
+
+def _arm_taken(repo, mod, fn, param, sample, spec=None):
     """Evaluate the if/elif chain of an address dispatcher on a concrete string; returns source text of the arm body reached."""
+    if spec is not None:
+        # cell evaluation: the dispatcher inspects the text only through prefixes / lengths compared with constants; the decoders are
+        # stand-ins that report being reached
+        from sa.cells import ClassRef, Evaluator, Raised, Undecided
+
+        def opaque(name, args, kw):
+            if name in ("decode_bech32", "decode_base58"):
+                raise _Reached(name)
+            return NotImplemented
+        try:
+            c = spec.split(":")[1]
+            if "." in c:
+                Evaluator(repo, opaque=opaque).call(spec, [sample, 1000], self_obj=ClassRef(spec.split(":")[0], c.split(".")[0]))
+            else:
+                Evaluator(repo, opaque=opaque).call(spec, [sample])
+            return "return without decoding"
+        except _Reached as r:
+            return "%s(%s)" % (r.args[0], param)
+        except Raised as x:
+            return "raise %s" % x.name
+        except Undecided:
+            pass
     f = Folder(repo, mod.name, {param: sample})
 
     def run(stmts):
